@@ -395,6 +395,11 @@ func c17R2(c *Ctx) {
 							if ia, ok := x.Addr.(*ssa.IndexAddr); ok && f2 == clo {
 								if u, ok := ia.X.(*ssa.UnOp); ok && u.X == fv {
 									cloWritesContent = true
+									if _, isSlice := u.Type().Underlying().(*types.Slice); isSlice && ownSlotIndex(ia.Index, clo, mc, goI) {
+										// each goroutine writes only the element at its own per-iteration index: disjoint
+										// memory locations need no lock; the parent still has to Wait before reading
+										return
+									}
 									must, _ := la.Held(x)
 									if firstContent {
 										contentLocks = must.clone()
@@ -466,7 +471,7 @@ func c17R2(c *Ctx) {
 				switch {
 				case cloWritesVar || cloWritesContent:
 					var bad []string
-					if cloWritesContent && len(contentLocks) == 0 {
+					if cloWritesContent && !firstContent && len(contentLocks) == 0 {
 						bad = append(bad, "the goroutine writes its contents without a mutex")
 					}
 					for _, in := range after {
@@ -603,4 +608,45 @@ func (c *Ctx) usesHoldGlobalMutex(gl *ssa.Global, sp *ssa.Package) bool {
 		})
 	}
 	return !first && len(common) > 0
+}
+
+// ownSlotIndex: the index is the value of a captured variable whose cell is allocated anew in every iteration of the
+// loop that starts the goroutine (Go's per-iteration loop variable), and that the closure never writes.
+func ownSlotIndex(idx ssa.Value, clo *ssa.Function, mc *ssa.MakeClosure, goI *ssa.Go) bool {
+	u, ok := idx.(*ssa.UnOp)
+	if !ok || u.Op != token.MUL {
+		return false
+	}
+	fv, ok := u.X.(*ssa.FreeVar)
+	if !ok {
+		return false
+	}
+	for i, f := range clo.FreeVars {
+		if f != fv {
+			continue
+		}
+		cell, ok := mc.Bindings[i].(*ssa.Alloc)
+		if !ok || !cell.Heap {
+			return false
+		}
+		// allocated inside a loop that contains the go statement
+		inLoop := false
+		for _, li := range loopsOf(goI.Parent()) {
+			if li.Blocks[cell.Block()] && li.Blocks[goI.Block()] {
+				inLoop = true
+			}
+		}
+		if !inLoop {
+			return false
+		}
+		// never written by the closure
+		written := false
+		eachInstr(clo, func(r instrRef) {
+			if st, ok := r.I.(*ssa.Store); ok && st.Addr == ssa.Value(fv) {
+				written = true
+			}
+		})
+		return !written
+	}
+	return false
 }
